@@ -1006,8 +1006,9 @@ impl ReCompiler {
                             sb.push(*ch);
                         }
                         _ => {
-                            // TODO: wrong whitespace
-                            if nesting == 0 && ch.is_ascii_whitespace() {
+                            // the whitespace of XSD/XPath: #x9, #xA, #xD, #x20
+                            // (not the form feed of is_ascii_whitespace)
+                            if nesting == 0 && matches!(ch, '\t' | '\n' | '\r' | ' ') {
                                 // no action
                             } else {
                                 escaped = false;
